@@ -93,6 +93,11 @@ CLAIMED["C20"]=dict(
    text="Exploration: 6k (quick) / 30k (thorough) programs x (1 + 6 (16) variants) x every byte offset x 8 queries (~10^8 queries in quick): no panic; on complete programs find at the first/middle/last byte of every identifier equals the checker's type for it, and no program binder is suggested where it is not lexically visible. Found and fixed: panics inside [] and on annotated expressions.",
    note="the checker's type for an occurrence is read from the typed tree the checker produced; globals of the environment among the suggestions are not judged",
    ref="6 C20")
+CLAIMED["C14"]=dict(
+   technique="randomised concurrency stress with a differential oracle (property-based generation of rounds): T OS threads on sibling Gluon threads of one VM run generated programs with overlapping imports of not-yet-loaded modules and allocation-heavy programs under forced collections while a collector thread collects the root; results compared with the same programs run alone; tick counters for once-ness; CPU-idle stall detection for deadlock",
+   text="Exploration: 3k (quick) / 60k (thorough) rounds x 2/4/8 (16) OS threads x 3-7 (11) programs, GC stress period in {0,1,2,5,13} with quarantined sweeps, a spinning root collector in 2/3 of the rounds. No absence claim: interleavings are sampled by the OS scheduler, not enumerated.",
+   note="default executor only (tokio VM not exercised); schedule perturbation hook H5 of the design was not needed so far and is not built; a stall is reported only when the worker consumed no CPU for 3 s",
+   ref="6 C14")
 NOT_YET = {}
 def main():
     props=[json.loads(l) for l in open('/verif/properties.jsonl')]
